@@ -28,6 +28,14 @@ pub enum Ev {
 thread_local! {
     static EVENTS: RefCell<Vec<Ev>> = const { RefCell::new(Vec::new()) };
     static INPUT_LEN: RefCell<usize> = const { RefCell::new(0) };
+    static CTX_CALLS: RefCell<Option<usize>> = const { RefCell::new(None) };
+}
+
+/// The user context type of the C14 family with `user_context_type`: counts the calls that
+/// received it.
+#[derive(Debug, Default)]
+pub struct Ctx {
+    pub calls: usize,
 }
 
 pub fn push(ev: Ev) {
@@ -222,7 +230,7 @@ where
 {
     run_with(gid, input, with_indented, |mode| {
         let mut ctx = C::default();
-        match mode {
+        let r = match mode {
             Mode::Plain => render(catch_unwind(AssertUnwindSafe(|| {
                 T::parse_advanced::<NoopTracer>(input, &ParseSettings::default(), &mut ctx)
             }))),
@@ -232,7 +240,13 @@ where
             Mode::Indented => render(catch_unwind(AssertUnwindSafe(|| {
                 T::parse_advanced::<IndentedTracer>(input, &ParseSettings::default(), &mut ctx)
             }))),
+        };
+        // how many user-function calls saw this context object
+        let any: &dyn std::any::Any = &ctx;
+        if let Some(c) = any.downcast_ref::<Ctx>() {
+            CTX_CALLS.with(|x| *x.borrow_mut() = Some(c.calls));
         }
+        r
     })
 }
 
@@ -241,9 +255,11 @@ pub fn run_with(gid: &str, input: &str, with_indented: bool, parse: impl Fn(Mode
     // 1. plain parse, with the verification sink on: cursor advances and reported failures
     let _ = take_events();
     peginator::verif::install();
+    CTX_CALLS.with(|x| *x.borrow_mut() = None);
     let plain = parse(Mode::Plain);
     let verif = peginator::verif::take();
     let user_plain = take_events();
+    let ctx_calls = CTX_CALLS.with(|x| x.borrow_mut().take());
     // 2. with a recording tracer
     let rec = parse(Mode::Rec);
     let events = take_events();
@@ -257,9 +273,13 @@ pub fn run_with(gid: &str, input: &str, with_indented: bool, parse: impl Fn(Mode
     let (advs, fails) = jverif(&verif);
     let cps: Vec<String> = input.chars().map(|c| (c as u32).to_string()).collect();
     format!(
-        "{{\"g\":{},\"inp\":[{}],\"res\":{},\"rec_same\":{},\"ind_same\":{},\"again_same\":{},\"rec\":{},\"ind\":{},\"events\":{},\"user\":{},\"advs\":{},\"fails\":{}}}",
+        "{{\"g\":{},\"inp\":[{}],\"ctx_calls\":{},\"res\":{},\"rec_same\":{},\"ind_same\":{},\"again_same\":{},\"rec\":{},\"ind\":{},\"events\":{},\"user\":{},\"advs\":{},\"fails\":{}}}",
         jstr(gid),
         cps.join(","),
+        match ctx_calls {
+            Some(n) => n.to_string(),
+            None => "null".to_string(),
+        },
         plain.json(),
         rec == plain,
         match &ind {
